@@ -194,6 +194,34 @@ def n_info(secure):
     cover("proxied" if (isinstance(got, tuple) and got[0]) else "direct")
 
 
+ENV_CREDS = ("plain", "us@er", "p:w", "a/b", "s3cr/et#x", "q?x=1", "100%", "sp ace", "a%2Fb")
+
+
+def n_env_auth(secure, upper):
+    """credentials inside the proxy URL of the environment variable are percent-encoded there (they may contain @ : / ? # %):
+    host, port and the decoded user / password come out exactly"""
+    quiet_logging()
+    import os as real_os
+    import urllib.parse as UP
+    user = ENV_CREDS[sx.choice("user", len(ENV_CREDS))]
+    pw = ENV_CREDS[sx.choice("pw", len(ENV_CREDS))]
+    name = "https_proxy" if secure else "http_proxy"
+    if upper:
+        name = name.upper()
+    env = {name: "http://%s:%s@envproxy.example:3128%s" % (UP.quote(user, safe=""), UP.quote(pw, safe=""), ("", "/")[sx.choice("slash", 2)])}
+    with _Patch(os=FakeEnv(real_os, env)) as U:
+        try:
+            got = U.get_proxy_info("target.example", secure)
+        except (sx.Control, sx.ConcreteFailure, sx.ReplayMismatch):
+            raise
+        except Exception as e:
+            got = "raised %s" % type(e).__name__
+    exp = ("envproxy.example", 3128, (user, pw))
+    sx.require(got == exp, "proxy host, port and credentials from the environment variable: the URL is split first, then user and password are "
+               "percent-decoded", got=str(got), exp=str(exp), secure=secure)
+    cover("env-auth")
+
+
 def n_tun(secure, auth):
     """connection through an HTTP proxy: CONNECT request, credentials, status gate (symbolic 3-digit status), then the
     WebSocket handshake addressed to the origin"""
@@ -301,6 +329,10 @@ def obligations(tier):
         Obligation("N-info", n_info, [dict(secure=s) for s in (False, True)], bounds="proxy host/port/auth options x {unset, plain, with credentials} for each of "
                    "http_proxy, HTTP_PROXY, https_proxy, HTTPS_PROXY x 4 no_proxy source patterns, ws and wss (full product)",
                    must_cover=["proxied", "direct"], budget_s=1800, kernel=["_url.get_proxy_info", "_is_no_proxy_host"]),
+        Obligation("N-env-auth", n_env_auth, [dict(secure=s, upper=u) for s in (False, True) for u in (False, True)],
+                   bounds="proxy URL in http_proxy / https_proxy (lower and upper case) with percent-encoded user and password from a catalogue of 9 "
+                          "values containing @ : / ? # % and space (all 81 pairs), with and without a trailing slash", must_cover=["env-auth"],
+                   kernel=["_url.get_proxy_info"]),
         Obligation("N-reuse", n_reuse, [dict(first_env=a, second_env=b) for a in ("", "target.example", "other.example") for b in ("", "target.example", "other.example")],
                    bounds="two successive decisions with one shared empty no_proxy list object and every pair of environment values", must_cover=["reuse"],
                    kernel=["_url._is_no_proxy_host", "get_proxy_info"]),
